@@ -46,6 +46,19 @@ Theorem c28_init_no_internal_partial : forall c, wf_ctx c -> forall t e,
 Proof. exact init_fixed_good. Qed.
 Print Assumptions c28_init_no_internal_partial.
 
+(* with fixes/C28-pack-integer-conversion.diff CContext.pack converts to the type itself: it is total and yields
+   the object representation of the converted value, for ANY value (out-of-range pointers, enumerators, chars) *)
+Theorem c28_pack_no_internal : forall c, wf_ctx c -> forall t v, llong_size c = 8 ->
+  pack_w c t v = Ok (bytes_of (little_endian c) (sizeof c t) (convert (dm_of c) t v)).
+Proof. exact pack_w_ok. Qed.
+Print Assumptions c28_pack_no_internal.
+
+(* hence `T g = e;` needs no cast in the initialiser any more: evaluation (guarded) + packing never raise *)
+Theorem c28_init_no_internal : forall c, wf_ctx c -> forall t e,
+  llong_size c = 8 -> ops_known e = true -> good (global_init_w c t e).
+Proof. exact init_wrap_good. Qed.
+Print Assumptions c28_init_no_internal.
+
 (* switch: label evaluation, duplicate / overlapping / inverted labels, duplicate default, code generation *)
 Theorem c28_switch_no_internal : forall c, wf_ctx c -> forall ls,
   forallb label_known ls = true -> good (switch_model true c ls).
